@@ -59,7 +59,11 @@ enum Op {
     Vote(u8),
     Rescind(u8),
     Drop(u8),
+    /// poll the receiver with the waker of the task that has held it so far
     Poll,
+    /// poll the receiver with a fresh waker (the receiver moved to another task, or sits in a
+    /// combinator that hands out a new waker per poll): only the most recent waker counts
+    PollNew,
 }
 
 impl Op {
@@ -69,11 +73,15 @@ impl Op {
             Op::Rescind(i) => format!("rescind{}", i),
             Op::Drop(i) => format!("drop{}", i),
             Op::Poll => "poll".to_string(),
+            Op::PollNew => "pollnew".to_string(),
         }
     }
     fn parse(s: &str) -> Option<Op> {
         if s == "poll" {
             return Some(Op::Poll);
+        }
+        if s == "pollnew" {
+            return Some(Op::PollNew);
         }
         let (k, i) = s.split_at(s.len() - 1);
         let i: u8 = i.parse().ok()?;
@@ -98,6 +106,7 @@ fn alphabet(n: u8) -> Vec<Op> {
         a.push(Op::Drop(i));
     }
     a.push(Op::Poll);
+    a.push(Op::PollNew);
     a
 }
 
@@ -124,10 +133,14 @@ fn run_seq(n: u8, ops: &[Op]) -> Result<(), (&'static str, usize, String)> {
     let mut v: u8 = 0; // parties with an outstanding vote (dropped-without-vote count as voted)
     let mut dropped: u8 = 0;
     let mut unanimous = false;
-    let flag = WakeFlag::new(false);
-    let waker = flag.waker();
+    let mut flag = WakeFlag::new(false);
+    let mut waker = flag.waker();
     let mut registered = false;
     for (step, op) in ops.iter().enumerate() {
+        if *op == Op::PollNew {
+            flag = WakeFlag::new(false);
+            waker = flag.waker();
+        }
         match *op {
             Op::Vote(i) => {
                 let r = real.voters[i as usize].as_ref().unwrap().vote();
@@ -166,7 +179,7 @@ fn run_seq(n: u8, ops: &[Op]) -> Result<(), (&'static str, usize, String)> {
                     unanimous = true;
                 }
             }
-            Op::Poll => {
+            Op::Poll | Op::PollNew => {
                 let mut cx = Context::from_waker(&waker);
                 let r = Pin::new(&mut real.receiver).poll(&mut cx);
                 match (r, unanimous) {
@@ -187,7 +200,7 @@ fn run_seq(n: u8, ops: &[Op]) -> Result<(), (&'static str, usize, String)> {
             }
         }
         if unanimous && registered && !flag.is_set() {
-            return Err(("unanimity_wakes_receiver", step, "unanimity was reached while the receiver was waiting but its waker was not woken".into()));
+            return Err(("unanimity_wakes_receiver", step, "unanimity was reached while the receiver was waiting but the waker of its most recent poll was not woken".into()));
         }
         let _ = dropped;
     }
@@ -207,7 +220,7 @@ fn valid_next(n: u8, dropped: u8, op: Op) -> bool {
     let _ = n;
     match op {
         Op::Vote(i) | Op::Rescind(i) | Op::Drop(i) => dropped & (1 << i) == 0,
-        Op::Poll => true,
+        Op::Poll | Op::PollNew => true,
     }
 }
 
@@ -725,7 +738,7 @@ fn main() {
         }
         ctx.finish("model_checking", "replay");
     }
-    let (d2, d3) = if ctx.quick() { (8, 6) } else { (10, 8) };
+    let (d2, d3) = if ctx.quick() { (9, 7) } else { (11, 9) };
     seq_leg(&ctx, 2, d2);
     seq_leg(&ctx, 3, d3);
     loom_leg(&ctx);
